@@ -1125,7 +1125,7 @@ def _is_enclosed_or_line(
 
         if isinstance(ast, (List, Dict, Set, ListComp, SetComp, DictComp, GeneratorExp,
                             FormattedValue, Interpolation, Name,
-                            MatchValue, MatchSingleton, MatchMapping,
+                            MatchSingleton, MatchMapping,  # MatchValue is not here because its value can be a multiline expression '1 +\n2j', 'a\n.b' or implicit string, it is checked below as the single child
                             boolop, operator, unaryop,  # cmpop is not here because of #*^% like 'is \n not'
                             Slice, keyword, type_param,  # these can be unenclosed by themselves but are never used without being enclosed by a parent
                             expr_context, type_ignore)):
